@@ -309,16 +309,41 @@ struct Corpus {
     mem: Memvid,
     metas: BTreeMap<u64, BTreeMap<String, String>>, // frame id -> stored extra_metadata
     markers: BTreeMap<u64, String>,
+    has_vec: bool,
 }
 
-fn build_corpus(r: &mut Rng, nframes: usize, with_vec: bool) -> Corpus {
+const T0: i64 = 1_700_000_000;
+
+/// frames = (uri, text, marker, metadata), stored in order with timestamps T0 + 1000 * i
+fn store_corpus(frames: &[(String, String, String, BTreeMap<String, String>)], with_vec: bool) -> Corpus {
     let dir = tempfile::tempdir().expect("tempdir");
     let path = dir.path().join("c12.mv2");
     let mut mem = Memvid::create(&path).expect("create");
     mem.enable_lex().expect("lex");
     if with_vec { mem.enable_vec().expect("vec"); }
-    let mut want: BTreeMap<String, (BTreeMap<String, String>, String)> = BTreeMap::new();
+    let mut want: BTreeMap<String, String> = BTreeMap::new();
+    for (i, (uri, text, marker, meta)) in frames.iter().enumerate() {
+        let opts = PutOptions { uri: Some(uri.clone()), title: Some(format!("Doc {}", i)), search_text: Some(text.clone()), timestamp: Some(T0 + 1000 * i as i64),
+            extra_metadata: meta.clone(), auto_tag: false, extract_dates: false, extract_triplets: false, ..Default::default() };
+        if with_vec { mem.put_with_embedding_and_options(text.as_bytes(), embed(text), opts).expect("put"); }
+        else { mem.put_bytes_with_options(text.as_bytes(), opts).expect("put"); }
+        want.insert(uri.clone(), marker.clone());
+    }
+    mem.commit().expect("commit");
+    let mut metas = BTreeMap::new();
+    let mut markers = BTreeMap::new();
+    for id in 0..mem.frame_count() as u64 {
+        if let Ok(f) = mem.frame_by_id(id) {
+            metas.insert(id, f.extra_metadata.clone());
+            if let Some(u) = &f.uri { if let Some(mk) = want.get(u) { markers.insert(id, mk.clone()); } }
+        }
+    }
+    Corpus { _dir: dir, mem, metas, markers, has_vec: with_vec }
+}
+
+fn build_corpus(r: &mut Rng, nframes: usize, with_vec: bool) -> Corpus {
     let salt = r.below(1000);
+    let mut frames = vec![];
     for i in 0..nframes {
         let mut tg = vec![];
         // two thirds well-formed frames of the two main tenants, the rest from the full generator
@@ -334,33 +359,45 @@ fn build_corpus(r: &mut Rng, nframes: usize, with_vec: bool) -> Corpus {
         let marker = format!("zq{}m{}x", i, salt);
         let topic = *r.pick(&["beta", "gamma", "delta"]);
         let text = format!("alpha {} report {} about the {} budget", topic, marker, r.pick(&["quarterly", "annual", "team"]));
-        let uri = format!("mv2://c12/doc{}", i);
-        let opts = PutOptions { uri: Some(uri.clone()), title: Some(format!("Doc {}", i)), search_text: Some(text.clone()),
-            extra_metadata: meta.clone(), auto_tag: false, extract_dates: false, extract_triplets: false, ..Default::default() };
-        if with_vec { mem.put_with_embedding_and_options(text.as_bytes(), embed(&text), opts).expect("put"); }
-        else { mem.put_bytes_with_options(text.as_bytes(), opts).expect("put"); }
-        want.insert(uri, (meta, marker));
+        // one frame in five is a user correction (ask promotes those to the top of its hit list)
+        let uri = if r.chance(1, 5) { format!("mv2://correction/c{}", i) } else { format!("mv2://c12/doc{}", i) };
+        frames.push((uri, text, marker, meta));
     }
-    mem.commit().expect("commit");
-    let mut metas = BTreeMap::new();
-    let mut markers = BTreeMap::new();
-    for id in 0..mem.frame_count() as u64 {
-        if let Ok(f) = mem.frame_by_id(id) {
-            metas.insert(id, f.extra_metadata.clone());
-            if let Some(u) = &f.uri { if let Some((_, mk)) = want.get(u) { markers.insert(id, mk.clone()); } }
-        }
-    }
-    Corpus { _dir: dir, mem, metas, markers }
+    store_corpus(&frames, with_vec)
+}
+
+/// The fixed memory that runs first on every seed: both tenants, public and restricted by role /
+/// principal / group, unknown visibility, no ACL metadata, a non-JSON list, and corrections of both
+/// tenants.  Every frame matches "alpha" and "budget".
+fn fixed_corpus() -> Corpus {
+    let f = |i: usize, uri: &str, extra: &str, kv: &[(&str, &str)]| (uri.to_string(), format!("alpha budget report zfix{}x {}", i, extra), format!("zfix{}x", i), bm(kv));
+    let frames = vec![
+        f(0, "mv2://acme/plan", "quarterly beta", &[("acl_tenant_id", "tenant-a"), ("acl_visibility", "public")]),
+        f(1, "mv2://globex/pricing", "annual beta", &[("acl_tenant_id", "tenant-b"), ("acl_visibility", "public")]),
+        f(2, "mv2://acme/admin", "team gamma", &[("acl_tenant_id", "tenant-a"), ("acl_visibility", "restricted"), ("acl_read_roles", "[\"admin\"]")]),
+        f(3, "mv2://acme/alice", "team gamma", &[("acl_tenant_id", "Tenant-A"), ("acl_visibility", "\"restricted\""), ("acl_read_principals", "[\"alice\"]")]),
+        f(4, "mv2://acme/ops", "annual delta", &[("acl_tenant_id", "tenant-a"), ("acl_visibility", "restricted"), ("acl_read_groups", "[\"ops\"]")]),
+        f(5, "mv2://acme/private", "quarterly delta", &[("acl_tenant_id", "tenant-a"), ("acl_visibility", "private")]),
+        f(6, "mv2://legacy/noacl", "quarterly beta", &[]),
+        f(7, "mv2://correction/acme-1", "corrected quarterly", &[("acl_tenant_id", "tenant-a"), ("acl_visibility", "public")]),
+        f(8, "mv2://correction/globex-1", "corrected annual", &[("acl_tenant_id", "tenant-b"), ("acl_visibility", "restricted"), ("acl_read_roles", "[\"admin\"]")]),
+        f(9, "mv2://acme/csv", "team beta", &[("acl_tenant_id", "tenant-a"), ("acl_visibility", "restricted"), ("acl_read_groups", "eng,ops")]),
+        f(10, "mv2://globex/ops", "team delta", &[("acl_tenant_id", "tenant-b"), ("acl_visibility", "restricted"), ("acl_read_groups", "[\"ops\"]")]),
+        f(11, "mv2://acme/late", "annual gamma", &[("acl_tenant_id", " tenant-a "), ("acl_visibility", "PUBLIC")]),
+    ];
+    store_corpus(&frames, true)
 }
 
 #[derive(Clone, Debug)]
-enum Req { Search { query: String, top_k: usize }, Vec { top_k: usize }, Adaptive { enabled: bool, max_results: usize }, Ask { question: String, mode: AskMode, context_only: bool, adaptive: bool } }
+enum Req { Search { query: String, top_k: usize }, Vec { top_k: usize }, Adaptive { enabled: bool, max_results: usize }, Ask { question: String, mode: AskMode, context_only: bool, adaptive: bool, top_k: usize, range: Option<(i64, i64)> } }
 
 /// what a response refers to: hits (rank, frame id), further frame ids (citations, fragments), texts
 #[derive(Clone, Debug, PartialEq)]
-struct Seen { hits: Vec<(usize, u64)>, other_ids: Vec<u64>, texts: Vec<String>, total: usize }
+struct Seen { hits: Vec<(usize, u64)>, other_ids: Vec<u64>, texts: Vec<String>, total: usize,
+              cits: Vec<(usize, u64)>, frags: Vec<(usize, u64)> } // ask only: citations (index, frame), context fragments (rank, frame)
 
 fn call(c: &mut Corpus, req: &Req, ctx: Option<&AclContext>, mode: AclEnforcementMode) -> Result<Result<Seen, String>, ()> {
+    let c_has_vec = c.has_vec;
     let mem = &mut c.mem;
     let res = std::panic::catch_unwind(std::panic::AssertUnwindSafe(|| -> Result<Seen, String> {
         match req {
@@ -369,32 +406,33 @@ fn call(c: &mut Corpus, req: &Req, ctx: Option<&AclContext>, mode: AclEnforcemen
                     as_of_frame: None, as_of_ts: None, no_sketch: false, acl_context: ctx.cloned(), acl_enforcement_mode: mode }).map_err(|e| e.to_string())?;
                 let mut texts = vec![resp.context.clone()];
                 for h in &resp.hits { texts.push(h.text.clone()); if let Some(t) = &h.chunk_text { texts.push(t.clone()); } }
-                Ok(Seen { hits: resp.hits.iter().map(|h| (h.rank, h.frame_id)).collect(), other_ids: vec![], texts, total: resp.total_hits })
+                Ok(Seen { hits: resp.hits.iter().map(|h| (h.rank, h.frame_id)).collect(), other_ids: vec![], texts, total: resp.total_hits, cits: vec![], frags: vec![] })
             }
             Req::Vec { top_k } => {
                 let resp = mem.vec_search_with_embedding_acl("alpha", &embed("alpha beta"), *top_k, 120, None, ctx, mode).map_err(|e| e.to_string())?;
                 let mut texts = vec![resp.context.clone()];
                 for h in &resp.hits { texts.push(h.text.clone()); }
-                Ok(Seen { hits: resp.hits.iter().map(|h| (h.rank, h.frame_id)).collect(), other_ids: vec![], texts, total: resp.total_hits })
+                Ok(Seen { hits: resp.hits.iter().map(|h| (h.rank, h.frame_id)).collect(), other_ids: vec![], texts, total: resp.total_hits, cits: vec![], frags: vec![] })
             }
             Req::Adaptive { enabled, max_results } => {
                 let cfg = AdaptiveConfig { enabled: *enabled, max_results: *max_results, ..Default::default() };
                 let resp = mem.search_adaptive_acl("alpha", &embed("alpha gamma"), cfg, 120, None, ctx, mode).map_err(|e| e.to_string())?;
                 let texts = resp.results.iter().map(|h| h.text.clone()).collect();
-                Ok(Seen { hits: resp.results.iter().map(|h| (h.rank, h.frame_id)).collect(), other_ids: vec![], texts, total: resp.stats.returned })
+                Ok(Seen { hits: resp.results.iter().map(|h| (h.rank, h.frame_id)).collect(), other_ids: vec![], texts, total: resp.stats.returned, cits: vec![], frags: vec![] })
             }
-            Req::Ask { question, mode: amode, context_only, adaptive } => {
-                let rq = AskRequest { question: question.clone(), top_k: 4, snippet_chars: 120, uri: None, scope: None, cursor: None, start: None, end: None,
+            Req::Ask { question, mode: amode, context_only, adaptive, top_k, range } => {
+                let rq = AskRequest { question: question.clone(), top_k: *top_k, snippet_chars: 120, uri: None, scope: None, cursor: None, start: range.map(|x| x.0), end: range.map(|x| x.1),
                     context_only: *context_only, mode: *amode, as_of_frame: None, as_of_ts: None,
                     adaptive: if *adaptive { Some(AdaptiveConfig::default()) } else { None }, acl_context: ctx.cloned(), acl_enforcement_mode: mode };
-                let resp = if *amode == AskMode::Lex { mem.ask::<Emb>(rq, None) } else { mem.ask(rq, Some(&Emb)) }.map_err(|e| e.to_string())?;
+                let resp = if *amode == AskMode::Lex || !c_has_vec { mem.ask::<Emb>(rq, None) } else { mem.ask(rq, Some(&Emb)) }.map_err(|e| e.to_string())?;
                 let mut texts = vec![resp.retrieval.context.clone()];
                 if let Some(a) = &resp.answer { texts.push(a.clone()); }
                 for h in &resp.retrieval.hits { texts.push(h.text.clone()); if let Some(t) = &h.chunk_text { texts.push(t.clone()); } }
                 for f in &resp.context_fragments { texts.push(f.text.clone()); }
                 let mut other: Vec<u64> = resp.citations.iter().map(|x| x.frame_id).collect();
                 other.extend(resp.context_fragments.iter().map(|f| f.frame_id));
-                Ok(Seen { hits: resp.retrieval.hits.iter().map(|h| (h.rank, h.frame_id)).collect(), other_ids: other, texts, total: resp.retrieval.total_hits })
+                Ok(Seen { hits: resp.retrieval.hits.iter().map(|h| (h.rank, h.frame_id)).collect(), other_ids: other, texts, total: resp.retrieval.total_hits,
+                    cits: resp.citations.iter().map(|x| (x.index, x.frame_id)).collect(), frags: resp.context_fragments.iter().map(|f| (f.rank, f.frame_id)).collect() })
             }
         }
     }));
@@ -420,36 +458,100 @@ fn e2e_contexts(r: &mut Rng) -> Vec<(Option<AclContext>, &'static str)> {
     v
 }
 
+fn ask(question: &str, mode: AskMode) -> Req { Req::Ask { question: question.into(), mode, context_only: false, adaptive: false, top_k: 4, range: None } }
+
+/// every retrieval entry point that takes an acl_context (grep acl_context / apply_acl_to_search_hits in
+/// /repo/src: Memvid::search, Memvid::ask, vec_search_with_embedding_acl, search_adaptive_acl; audit(),
+/// graph_search::hybrid_search, replay and the lib.rs helpers pass None/Audit and take no context), and for
+/// ask every retrieval path: plain, zero-hit timeline fallback, analytical (timeline replaces the candidates),
+/// aggregation, recency, update, corrections, time range, Lex / Sem / Hybrid, adaptive, context_only
+fn requests(with_vec: bool) -> Vec<Req> {
+    let mut reqs = vec![
+        // analytical questions first (seeded change C12-1: the final ACL pass of ask skipped for them)
+        ask("compare the alpha budget over time", AskMode::Lex),
+        ask("alpha report vs beta report", AskMode::Hybrid),
+        Req::Ask { question: "history of the alpha budget: any changes".into(), mode: AskMode::Lex, context_only: true, adaptive: false, top_k: 2, range: None },
+        ask("compare nosuchtermzz over time", AskMode::Lex),
+        Req::Search { query: "alpha".into(), top_k: 20 }, Req::Search { query: "alpha".into(), top_k: 3 },
+        Req::Search { query: "beta OR gamma".into(), top_k: 20 },
+        Req::Search { query: "alpha AND date:[2031-01-01 TO 2030-01-01]".into(), top_k: 20 },
+        Req::Search { query: "uri:mv2://correction/* AND (alpha OR budget)".into(), top_k: 10 },
+        Req::Search { query: "nosuchtermzz".into(), top_k: 20 },
+        Req::Vec { top_k: 20 }, Req::Vec { top_k: 3 }, Req::Vec { top_k: 0 },
+        Req::Adaptive { enabled: true, max_results: 20 }, Req::Adaptive { enabled: false, max_results: 4 }, Req::Adaptive { enabled: true, max_results: 0 },
+        ask("alpha beta report", AskMode::Lex),
+        ask("what is the alpha budget", AskMode::Hybrid),
+        Req::Ask { question: "alpha gamma".into(), mode: AskMode::Hybrid, context_only: true, adaptive: true, top_k: 4, range: None },
+        ask("nosuchtermzz", AskMode::Lex),
+        Req::Ask { question: "how many alpha reports are there in total".into(), mode: AskMode::Lex, context_only: false, adaptive: false, top_k: 2, range: None },
+        ask("what is the latest alpha budget right now", AskMode::Hybrid),
+        ask("has the alpha budget changed, is it still annual", AskMode::Lex),
+        ask("alpha budget", AskMode::Sem),
+        ask("corrected alpha budget", AskMode::Lex),
+        Req::Ask { question: "alpha report".into(), mode: AskMode::Lex, context_only: false, adaptive: false, top_k: 4, range: Some((T0 + 2500, T0 + 7500)) },
+        Req::Ask { question: "compare alpha budget versus beta".into(), mode: AskMode::Lex, context_only: false, adaptive: false, top_k: 3, range: Some((T0, T0 + 6500)) },
+    ];
+    if !with_vec { reqs.retain(|q| !matches!(q, Req::Ask { mode: AskMode::Hybrid | AskMode::Sem, .. })); }
+    reqs
+}
+
+fn fixed_contexts() -> Vec<(Option<AclContext>, &'static str)> {
+    vec![
+        (None, "ctx-none"),
+        (Some(cx(Some("tenant-a"), Some("alice"), &["admin"], &["eng"])), "ctx-a-full"),
+        (Some(cx(Some("Tenant-B "), Some("user-1"), &["Viewer"], &[])), "ctx-b-mixedcase"),
+        (Some(cx(Some("tenant-a"), None, &[], &[])), "ctx-a-bare"),
+        (Some(cx(Some("tenant-a"), Some("bob"), &[], &["OPS"])), "ctx-a-ops"),
+        (Some(cx(Some("nobody"), Some("alice"), &["admin", "analyst", "viewer"], &["eng", "ops", "sales"])), "ctx-unknown-tenant"),
+        (Some(cx(None, Some("alice"), &["admin"], &["eng"])), "ctx-no-tenant"),
+        (Some(cx(Some(" \t"), Some("alice"), &["admin"], &["eng"])), "ctx-blank-tenant"),
+        (Some(cx(Some("\"\""), None, &[], &[])), "ctx-quoted-empty-tenant"),
+    ]
+}
+
 fn run_e2e(r: &mut Rng, ncorpora: usize, nframes: usize, w: &mut dyn std::io::Write) {
+    // the fixed memory first
+    let mut c = fixed_corpus();
+    exercise(&mut c, "fixed", &requests(true), &fixed_contexts(), w);
     for ci in 0..ncorpora {
         // the last corpus has lex + vec enabled but no embeddings: vector search short-circuits
         let with_vec = !(ncorpora > 1 && ci == ncorpora - 1);
         let mut c = build_corpus(r, nframes, with_vec);
         if !with_vec { c.mem.enable_vec().ok(); c.mem.commit().ok(); }
-        let mut reqs = vec![
-            Req::Search { query: "alpha".into(), top_k: 20 }, Req::Search { query: "alpha".into(), top_k: 3 },
-            Req::Search { query: "beta OR gamma".into(), top_k: 20 },
-            Req::Search { query: "alpha AND date:[2031-01-01 TO 2030-01-01]".into(), top_k: 20 },
-            Req::Search { query: "nosuchtermzz".into(), top_k: 20 },
-            Req::Vec { top_k: 20 }, Req::Vec { top_k: 3 }, Req::Vec { top_k: 0 },
-            Req::Adaptive { enabled: true, max_results: 20 }, Req::Adaptive { enabled: false, max_results: 4 }, Req::Adaptive { enabled: true, max_results: 0 },
-            Req::Ask { question: "alpha beta report".into(), mode: AskMode::Lex, context_only: false, adaptive: false },
-            Req::Ask { question: "what is the alpha budget".into(), mode: AskMode::Hybrid, context_only: false, adaptive: false },
-            Req::Ask { question: "alpha gamma".into(), mode: AskMode::Hybrid, context_only: true, adaptive: true },
-            Req::Ask { question: "nosuchtermzz".into(), mode: AskMode::Lex, context_only: false, adaptive: false },
-        ];
-        if !with_vec { reqs.retain(|q| !matches!(q, Req::Ask { mode: AskMode::Hybrid, .. })); }
         let ctxs = e2e_contexts(r);
-        for req in &reqs {
-            let base = call(&mut c, req, None, AclEnforcementMode::Audit);
+        exercise(&mut c, &format!("{}", ci), &requests(with_vec), &ctxs, w);
+    }
+}
+
+fn t_pairs(v: &[(usize, u64)]) -> T { T::L(v.iter().map(|h| T::Tup(vec![T::N(h.0 as u128), T::N(h.1 as u128)])).collect()) }
+
+fn exercise(c: &mut Corpus, ci: &str, reqs: &[Req], ctxs: &[(Option<AclContext>, &'static str)], w: &mut dyn std::io::Write) {
+    let with_vec = c.has_vec;
+    let all_frames_t = T::L(c.metas.iter().map(|(id, m)| T::Tup(vec![T::N(*id as u128), tmeta(m)])).collect());
+    {
+        for req in reqs {
+            let mut fin: Vec<(T, T)> = vec![]; let mut fin_nontrivial = false;
+
+            let base = call(c, req, None, AclEnforcementMode::Audit);
             let mut batch: Vec<(T, T)> = vec![]; let mut batch_tags: Vec<String> = vec![]; let mut batch_nontrivial = false;
-            for (ctx, ctag) in &ctxs {
+            for (ctx, ctag) in ctxs {
                 for mode in [AclEnforcementMode::Audit, AclEnforcementMode::Enforce] {
                     if ctx.is_none() && mode == AclEnforcementMode::Audit { continue; }
                     let enforce = mode == AclEnforcementMode::Enforce;
-                    let got = call(&mut c, req, ctx.as_ref(), mode);
+                    let got = call(c, req, ctx.as_ref(), mode);
                     let kind = match req { Req::Search { .. } => "search", Req::Vec { .. } => "vec", Req::Adaptive { .. } => "adaptive", Req::Ask { .. } => "ask" };
                     let mut tags = vec![kind.to_string(), ctag.to_string(), if enforce { "enforce".into() } else { "audit".to_string() }];
+                    if ci == "fixed" { tags.push("fixed-corpus".into()); }
+                    if let Req::Ask { question, mode: am, context_only, adaptive, range, .. } = req {
+                        let q = question.to_ascii_lowercase();
+                        tags.push(format!("ask-{}", if ["compare", "over time", "vs ", "history of", "any changes", "versus"].iter().any(|p| q.contains(p)) { "analytical" }
+                            else if q.contains("how many") { "aggregation" } else if q.contains("latest") { "recency" } else if q.contains("changed") { "update" }
+                            else if q.contains("correct") { "correction" } else if q.contains("nosuchterm") { "zero-hit" } else { "plain" }));
+                        tags.push(format!("ask-{:?}", am).to_lowercase());
+                        if *context_only { tags.push("ask-context-only".into()); }
+                        if *adaptive { tags.push("ask-adaptive".into()); }
+                        if range.is_some() { tags.push("ask-time-range".into()); }
+                    }
                     if !with_vec { tags.push("no-embeddings".into()); }
                     let usable = ctx.as_ref().map_or(false, |x| o_norm(x.tenant_id.as_deref()).is_some());
                     let mut viol: Option<String> = None;
@@ -525,6 +627,17 @@ fn run_e2e(r: &mut Rng, ncorpora: usize, nframes: usize, w: &mut dyn std::io::Wr
                             tags.push("modelled".into());
                         }
                     }
+                    // `final` stream: whatever path produced the response, the last step of every entry point is the ACL
+                    // stage, so the response must be a fixed point of the model's last step (hits unchanged by filtering
+                    // and re-ranking; citations / fragments derived from exactly those hits)
+                    if let Ok(Ok(sn)) = &got {
+                        if !(enforce && !usable) {
+                            let cit_mode: u128 = match req { Req::Ask { context_only: true, .. } => 1, Req::Ask { .. } => 2, _ => 0 };
+                            fin.push((T::Tup(vec![match ctx { None => T::none(), Some(x) => T::some(tctx(x)) }, T::B(enforce), T::N(cit_mode), t_pairs(&sn.hits)]),
+                                      T::C("Ok", vec![T::Tup(vec![t_pairs(&sn.hits), t_pairs(&sn.cits), t_pairs(&sn.frags)])])));
+                            fin_nontrivial |= enforce && !sn.hits.is_empty();
+                        }
+                    }
                     let input = T::S(format!("{:?} ctx={} mode={:?}", req, ctag, mode).replace('"', "'"));
                     let output = T::S(match &got { Ok(Ok(s)) => format!("Ok hits={:?} other={:?}", s.hits, s.other_ids), Ok(Err(e)) => format!("Err {}", e.replace('"', "'")), Err(()) => "Panic".into() });
                     emit(w, "e2e", &Case { input, output, violation: viol, nontrivial, tags, key });
@@ -542,6 +655,15 @@ fn run_e2e(r: &mut Rng, ncorpora: usize, nframes: usize, w: &mut dyn std::io::Wr
                 let key = digest(&format!("{}{:?}{:?}", ci, req, c.metas));
                 emit(w, "apply", &Case { input, output, violation: None, nontrivial: batch_nontrivial, tags: batch_tags, key });
             }
+            if !fin.is_empty() {
+                let kind = match req { Req::Search { .. } => "search", Req::Vec { .. } => "vec", Req::Adaptive { .. } => "adaptive", Req::Ask { .. } => "ask" };
+                let mut tags = vec![kind.to_string(), format!("calls-{}", fin.len())];
+                if ci == "fixed" { tags.push("fixed-corpus".into()); }
+                let input = T::Tup(vec![all_frames_t.clone(), T::L(fin.iter().map(|x| x.0.clone()).collect())]);
+                let output = T::L(fin.iter().map(|x| x.1.clone()).collect());
+                let key = digest(&format!("final{}{:?}{:?}", ci, req, c.metas));
+                emit(w, "final", &Case { input, output, violation: None, nontrivial: fin_nontrivial, tags, key });
+            }
         }
     }
 }
@@ -550,8 +672,8 @@ pub fn run(seed: u64, n: usize, w: &mut dyn std::io::Write) {
     let mut r = Rng::new(seed ^ 0xC12);
     run_decide(&mut r, n, w);
     run_json(&mut r, (n / 3).max(50), w);
-    // corpora: quick n=2400 -> 4 corpora of 9 frames; thorough scales up
-    let ncorpora = (n / 400).clamp(2, 60);
+    // the fixed memory, then n/600 generated ones (quick n=2400 -> 4 of 9 frames); thorough scales up
+    let ncorpora = (n / 600).clamp(2, 60);
     let nframes = if n > 5000 { 24 } else { 9 };
     run_e2e(&mut r, ncorpora, nframes, w);
 }
